@@ -715,7 +715,7 @@ fn enc_frame(f: Frame, out: &mut BytesMut) {
     FrameCodec.encode(f, out).unwrap();
 }
 
-/// authtls <hash32hex> <padlen> <cut> <frag> [h]
+/// authtls <hash32hex> <padlen> <cut> <frag> [h | s <n> <ms>]
 ///   the client sends  hash ++ be16(padlen) ++ zeros(padlen) ++ Settings ++ SYN(1) ++ PSH(1, destination = target)
 ///   cut  = number of bytes of that byte string actually sent before the client half-closes ("-" = all, no close)
 ///   frag = comma separated write sizes (cycled), "-" = one write
@@ -729,11 +729,21 @@ fn authtls(args: &[&str]) -> String {
         args[3].split(',').map(|x| x.parse().unwrap()).collect()
     };
     // layout "h": the frames follow the 32 bytes directly (what a server that skipped the check would parse)
-    let bare = args.len() > 4 && args[4] == "h";
+    // layout "s" <n> <ms>: slow peer -- only the first n bytes of the hash, then <ms> of silence, then the frames
+    //             (what a server that gave up waiting for the preamble but kept the connection would parse)
+    let slow: Option<(usize, u64)> = if args.len() > 6 && args[4] == "s" {
+        Some((args[5].parse().unwrap(), args[6].parse().unwrap()))
+    } else {
+        None
+    };
+    let bare = args.len() > 4 && (args[4] == "h" || slow.is_some());
     let env = tls_env();
     env.rt.block_on(async move {
         let mut wire = BytesMut::new();
-        wire.extend_from_slice(&hash);
+        match slow {
+            Some((n, _)) => wire.extend_from_slice(&hash[..n.min(32)]),
+            None => wire.extend_from_slice(&hash),
+        }
         if !bare {
             wire.extend_from_slice(&(padlen as u16).to_be_bytes());
             wire.extend_from_slice(&vec![0u8; padlen]);
@@ -768,6 +778,15 @@ fn authtls(args: &[&str]) -> String {
         };
         let mut pos = 0usize;
         let mut k = 0usize;
+        if let Some((n, ms)) = slow {
+            let n = n.min(32);
+            if n > 0 {
+                let _ = s.write_all(&wire[..n]).await;
+                let _ = s.flush().await;
+            }
+            pos = n;
+            tokio::time::sleep(Duration::from_millis(ms)).await;
+        }
         while pos < wire.len() {
             let n = if frag.is_empty() { wire.len() } else { frag[k % frag.len()].max(1) };
             let end = (pos + n).min(wire.len());
